@@ -233,7 +233,9 @@ def e2e_module(text, elems_have_ints=True):
             'Ii ::= SEQUENCE { i IA5String (SIZE %s) }\n'
             'Ss ::= SEQUENCE %s OF BOOLEAN\n'
             'Tt ::= SEQUENCE { t BIT STRING (SIZE %s) }\n'
-            'END\n') % (text, text, text, text, text, '(SIZE %s)' % text, text)
+            'Ff ::= IA5String (FROM ("ab") ^ SIZE %s)\n'
+            'Gg ::= SEQUENCE { g NumericString (SIZE %s ^ FROM ("0".."7")), h VisibleString (FROM ("a".."f") ^ SIZE %s) }\n'
+            'END\n') % (text, text, text, text, text, '(SIZE %s)' % text, text, text, text, text)
 
 
 def find(items, kind, name):
@@ -283,9 +285,16 @@ def judge_e2e(ck, cases, results):
         tt = find(r['items'], 'struct', 'Tt')
         if tt:
             obs.append(('size-bits', False, True, parse_attr(tt['fields'][0]['attrs'])))
-        if len(obs) < 7 and r.get('warnings'):
+        ff = find(r['items'], 'struct', 'Ff')
+        if ff:
+            obs.append(('size-after-from', False, True, parse_attr(ff['attrs'])))
+        gg = find(r['items'], 'struct', 'Gg')
+        if gg:
+            obs.append(('size-before-from', False, True, parse_attr(gg['fields'][0]['attrs'])))
+            obs.append(('size-after-from-component', False, True, parse_attr(gg['fields'][1]['attrs'])))
+        if len(obs) < 10 and r.get('warnings'):
             ck.count('e2e-warned')                     # e.g. an empty intersection: reported, not silent
-        elif len(obs) < 7:
+        elif len(obs) < 10:
             ck.violation('impl-violation', c['sources'][0], why='a type with a valid constraint was not generated',
                          warnings=r.get('warnings'), got=[x[0] for x in obs])
         for pos, signed, is_size, (kind, mn, mx, ext) in obs:
@@ -472,6 +481,10 @@ def run(ck):
         if ck.rng.random() < 0.3:
             cs = [{'set': G.E(G.size(x['set'])), 'ext': x['ext']} for x in cs]
         cases.append({'op': 'pv_range', 'signed': ck.rng.random() < 0.6, 'constraints': cs})
+    for _ in range(600 if ck.tier == 'quick' else 8000):
+        # mixed element sets (SIZE / FROM / PATTERN / contained among the operands) through the range conversion: correspondence only
+        s = G.rand_mixed_eos(ck.rng, depth=2)
+        cases.append({'op': 'pv_range', 'signed': ck.rng.random() < 0.5, 'constraints': [{'set': s, 'ext': ck.rng.random() < 0.2}]})
     serials = gen_serial(ck, 1500 if ck.tier == 'quick' else 30000)
     for ms in serials:
         ir = serial_ir(ms)
